@@ -1,5 +1,6 @@
 """C05 — the LDPC-Staircase matrix is the RFC 5170 matrix and depends only on (k, n, N1, seed).  BOUNDED (concrete parameter points)."""
 from ofvlib.core import Job
+from checks import c19
 
 LB = "src/lib_common/linear_binary_codes_utils/"
 SRCS = ["src/lib_stable/ldpc_staircase/of_ldpc_staircase_pchk.c", "src/lib_stable/ldpc_staircase/of_ldpc_staircase_api.c", "src/lib_common/of_openfec_api.c",
@@ -22,7 +23,9 @@ INFO = {
 
 def points(tier, seed):
     pts = [(4, 4, 3, 1), (4, 4, 4, 1), (2, 4, 3, 1), (1, 3, 3, 1), (3, 5, 3, 4), (5, 4, 3, 7), (2, 5, 5, 3), (6, 4, 3, 2), (2, 6, 3, 1), (3, 6, 3, 2),
-           (8, 4, 3, 1), (2, 7, 7, 3), (4, 6, 5, 2), (3, 4, 4, 5), (5, 5, 3, 2147483646), (7, 3, 3, 5), (2, 3, 3, 1000), (10, 5, 3, 1), (1, 4, 3, 1), (6, 6, 4, 12345)]
+           (8, 4, 3, 1), (2, 7, 7, 3), (4, 6, 5, 2), (3, 4, 4, 5), (5, 5, 3, 2147483646), (7, 3, 3, 5), (2, 3, 3, 1000), (10, 5, 3, 1), (1, 4, 3, 1), (6, 6, 4, 12345),
+           # low code rates: extra entries are drawn after the last regular pick; even N1 with two or more extra entries
+           (3, 7, 3, 1), (4, 8, 3, 1), (3, 6, 3, 5), (4, 7, 3, 2), (5, 9, 3, 1), (3, 7, 4, 1), (1, 7, 4, 1), (2, 9, 4, 1), (3, 8, 4, 2), (1, 5, 4, 3), (2, 7, 4, 5), (4, 9, 4, 7)]
     if tier != "quick":
         for k in range(1, 11):
             for r in range(3, 8):
@@ -46,4 +49,11 @@ def jobs(tier, seed, t=1, prop="matrix", group="ldpc_rfc5170_matrix", funcs=None
                       defines={"OFV_T": t, "OFV_ROLE": 3, "OFV_K": k, "OFV_R": r, "OFV_N1": n1, "OFV_SEED": s, "OPENFEC_VERIF_SPARSE_BLOCK": 64},
                       unwind=110, object_bits=11, timeout=600, mem_gb=3, status="bounded",
                       bound="(k, n-k, N1, seed) = (%d, %d, %d, %d) is a harness constant; prior PRNG state%s symbolic" % (k, r, n1, s, " and all source data" if t == 2 else "")))
+    if t == 1:
+        # "including the Park-Miller generator": the generator's contracts for EVERY state and every maxv (C19's, re-run here; proved, not bounded)
+        for j in c19.jobs(tier, seed):
+            if j.name.startswith(("srand.", "rand.step", "rand.return_is_rfc_expression", "rand.ten_thousandth")):
+                j.name = "prng." + j.name
+                j.group = "prng_" + j.group
+                js.append(j)
     return js
